@@ -36,6 +36,7 @@ def run(ck, fb):
     r09g(ck, fb)
     r09h(ck, fb)
     r09i(ck, fb)
+    r09j(ck, fb)
 
 
 PAIR_EXCEPTIONS = {
@@ -452,3 +453,58 @@ def r09i(ck, fb):
                'update_value can return without clearing tmp: a key that received a routed temporary value keeps the mark after the publish was applied; '
                'republishing the same content is then treated as a change every time (duplicate history entries push real ones out of the 100-entry '
                'window, listeners are notified)', 'tmp = false on every path')
+
+
+def paging_offset_rule(ck, fb, R, outer_name, inner_pat, param_pat, what):
+    """a page over several partitions: the offset counts matches across ALL partitions, so the per-partition page takes the remaining offset as an
+    argument (it does not read the query's offset itself) and the loop over partitions hands down a loop-carried offset"""
+    from rn.facts import op_place, pl_local, pl_proj
+    o = ck.body(outer_name, R)
+    if not o:
+        return
+    inner = [b for b in fb.find(inner_pat) if not b.parent]
+    if not ck.require(len(inner) >= 1, R, what + ':per-partition-page', o.where(), 'per-partition page function not found'):
+        return
+    reads_own = False
+    for b in inner:
+        ck.analysed(b)
+        own = [f for (ow, f, bb, st) in b.field_reads() if f == 'offset' and re.search(param_pat, ow or '')]
+        reads_own = reads_own or bool(own)
+        ck.require(not own, R, what + ':partition-page-takes-offset', b.where(),
+                   '%s is called once per partition by the cross-partition listing but applies the query\'s global offset to its own matches: page 2 of '
+                   'a listing over two partitions skips the first items of the second partition, they are never returned although the total counts them' % b.name,
+                   'offset is a parameter')
+
+    def in_loop(bb):
+        nxt = o.blocks[bb]['t'].get('t')
+        return nxt is not None and bb in cfg.reach_from(o, [nxt])
+    sites = [s for s in o.calls(inner_pat) if in_loop(s.bb)]
+    ck.require(len(sites) >= 1, R, what + ':loop-site', o.where(), 'the loop over partitions no longer calls the per-partition page')
+    if reads_own:
+        return
+    for s in sites:
+        carried = False
+        for a in s.args[1:]:
+            pl = op_place(a)
+            if pl is None or pl_proj(pl):
+                continue
+            l = pl_local(pl)
+            ds = o.defs.get(l, [])
+            if len(ds) == 1 and ds[0][0] == 'stmt' and ds[0][3]['rv']['k'] == 'use':      # a plain copy of the variable
+                p2 = op_place(ds[0][3]['rv']['op'])
+                if p2 is not None and not pl_proj(p2):
+                    l = pl_local(p2)
+                    ds = o.defs.get(l, [])
+            inloop = [d for d in ds if d[1] in cfg.reach_from(o, [s.bb]) and s.bb in cfg.reach_from(o, [d[1]])]
+            if len(ds) >= 2 and inloop and o.local_ty(l) == 'usize' and (o.locals[l].get('n') or '') != 'limit':
+                carried = True
+        ck.require(carried, R, what + ':offset-carried-across-partitions', s.where(),
+                   'the loop over partitions does not hand a running offset (reduced by each partition\'s total) to the per-partition page')
+
+
+def r09j(ck, fb):
+    ck.rule('R09j', 'paging across tenants: a listing without a tenant filter applies the offset to the concatenation of all permitted tenants - '
+                    'ConfigIndex::query_config_page takes the remaining offset as an argument and TenantIndex::query_config_page reduces it by each '
+                    'tenant\'s total; every stored key then appears exactly once across the pages')
+    paging_offset_rule(ck, fb, 'R09j', 'rnacos::config::config_index::TenantIndex::query_config_page',
+                       r'config_index::ConfigIndex::query_config_page$', r'ConfigQueryParam', 'config-listing')
